@@ -196,6 +196,31 @@ fn main() {
             }
         }
     }
+    // near ties: two sides overlap by almost the same ratio (rho and rho + delta / side, less than a tenth of a percent
+    // apart on long sides).  confine() must scale by the LARGER ratio; scaling by the other leaves delta / rho pixels too
+    // many on the side that really overlaps most.  All four choices of the pair of sides and both orders.
+    for &(w, h) in &[(2000u32, 6000u32), (500, 8000), (10_000, 20_000), (6000, 2000), (100_000, 30_000), (1500, 1500)] {
+        for &(num, den) in &[(6u32, 5u32), (3, 2), (2, 1), (37, 10)] {
+            for &delta in &[4u32, 5, 8, 12, 20, 40] {
+                for variant in 0..8 {
+                    // sums of the radii on the horizontal side (top or bottom) and on the vertical side (left or right)
+                    let hs = (w as u64 * num as u64).div_ceil(den as u64) as u32 + if variant % 2 == 0 { 0 } else { delta };
+                    let vs = (h as u64 * num as u64).div_ceil(den as u64) as u32 + if variant % 2 == 0 { delta } else { 0 };
+                    let (a, b) = (hs / 2, hs - hs / 2); // the two widths on the horizontal side
+                    let (c, e) = (vs / 2 + 1, vs - vs / 2 - 1); // the two heights on the vertical side
+                    // [tl, tr, br, bl] as [width, height]
+                    let radii = match variant / 2 {
+                        0 => json!([[a, c], [b, 100], [300, 100], [300, e]]), // top + left
+                        1 => json!([[a, 100], [b, c], [300, e], [300, 100]]), // top + right
+                        2 => json!([[300, c], [300, 100], [b, 100], [a, e]]), // bottom + left
+                        _ => json!([[300, 100], [300, c], [b, e], [a, 100]]), // bottom + right
+                    };
+                    let s = json!({"k":"rrect","r":[0, 0, w, h],"radii":radii});
+                    run_case(&mut rec, &json!({"t":"confine","shape":s}));
+                }
+            }
+        }
+    }
     // arcs and sectors on an angle grid
     let ds: Vec<u32> = if th { (1..=24).chain([31, 32, 33, 47, 48, 63, 64, 65, 96, 127, 128]).collect() } else { vec![1, 2, 3, 4, 5, 6, 7, 8, 9, 10, 11, 12, 31, 32, 64] };
     let step = if th { 1 } else { 5 };
